@@ -10,6 +10,20 @@ TRUST = ("Trusted base: the Go type checker and go/ssa (x/tools v0.29.0) as a fa
 
 # id -> (technique, level text, level_note, design_ref)
 CLAIMED = {
+    "C01": (
+        "CFG guard-set decoding + access-path origins + abstract evaluation of the conflict closure over the three order types of the compared priorities (path enumeration)",
+        "Decides the skeleton of scan -> index for all paths: extension table at every filter site, walk filter (non-directory, Spec extension, sub-directories skipped), priority = directory index flowing unchanged into Spec.priority, "
+        "conflict resolution correct for each order type (> replaces and forgets a recorded conflict, = records for both files and keeps, < changes nothing), store exactly when absent or 'replace', conflicts removed after the scan, "
+        "only valid Specs indexed, index fields replaced wholesale, listers read their own index after refreshIfRequired. Necessary conditions of the precedence rule; not equality with the specified index function over all directory populations.",
+        TRUST + "filepath.Walk order and SkipDir semantics are assumed. Does not decide which files are valid (C05) nor histories of directory changes.",
+        "DESIGN.md §4 C01"),
+    "C13": (
+        "return-shape classification + guard-set decoding + error-flow rules over the scan machinery on go/ssa",
+        "Decides for all paths that a per-path failure cannot end the scan of later directories (walk callback returns only nil/SkipDir/scan-function verdict; non-ENOENT stat failures and walk errors are handed to the scan function), "
+        "that scanSpecDirs stops early only on a non-nil non-ErrStopScan result, that refresh's callback always returns nil after recording the failure under the file's path, ReadSpec fails with (nil, error), "
+        "error and index maps are made anew per refresh (or emptied before refilling), and Refresh/refresh/refreshIfRequired return the join of the current per-file error lists.",
+        TRUST + "Does not decide fault semantics of the file system or filepath.Walk internals, nor which inputs fail to load.",
+        "DESIGN.md §4 C13"),
     "C03": (
         "per-instruction write footprints (interprocedural effect analysis through the OCI generator's source) + decoded guard sets from CFG edge dominance + access-path argument origins + field-map tables",
         "Decides the translation table behind Apply for all paths: which OCI sections each instruction can write, under exactly which decoded conditions, fed from which edit fields; the four toOCI field maps; "
